@@ -108,8 +108,15 @@ func (session *ServerCommandSession) FeedSdp(b []byte) {
 // 使用RTSP TCP命令连接，向对端发送RTP数据
 func (session *ServerCommandSession) WriteInterleavedPacket(packet []byte, channel int) error {
 	if session.isWebSocket {
-		respLen := len(packInterleaved(channel, packet))
-		session.writeWsFrameHeader(respLen)
+		// the frame header and the packet are queued as ONE write, see base.BasicHttpSubSession.Write
+		body := packInterleaved(channel, packet)
+		wsHeader := base.WsHeader{
+			Fin:           true,
+			Opcode:        base.Wso_Binary,
+			PayloadLength: uint64(len(body)),
+		}
+		_, err := session.conn.Writev(net.Buffers{base.MakeWsFrameHeader(wsHeader), body})
+		return err
 	}
 	_, err := session.conn.Write(packInterleaved(channel, packet))
 	return err
